@@ -1355,6 +1355,14 @@ func (sc *SchedulerCache) AddBindTask(bindContext *BindContext) error {
 		return fmt.Errorf("failed to bind Task %v to host %v, host does not exist",
 			task.UID, bindContext.TaskInfo.NodeName)
 	}
+	// A NodeInfo without Node object is a placeholder: RemoveNode leaves one behind for a node
+	// that still has pods, addTask creates one for pods seen before their node. It keeps no
+	// resource ledger, and NodeInfo.AddTask skips the Binding re-check for it, so a bind decided
+	// on a view that predates the node's removal would be admitted without any check.
+	if node.Node == nil {
+		return fmt.Errorf("failed to bind Task %v to host %v, host is not ready in the cache",
+			task.UID, bindContext.TaskInfo.NodeName)
+	}
 
 	originalStatus := task.Status
 	job.UpdateTaskStatus(task, schedulingapi.Binding)
